@@ -18,6 +18,11 @@ def run(ctx):
     jobs = [(binary, hooks, P, Q, duration + (P + Q), ctx.seed) for P, Q in configs]
     with multiprocessing.Pool(len(jobs)) as pool:
         outs = pool.map(clock.run_config, jobs)
+    # a configuration spoilt by scheduling lag of the harness itself is repeated once, alone
+    for i, o in enumerate(outs):
+        if o["inconclusive"]:
+            outs[i] = clock.run_config(jobs[i])
+            outs[i]["retried"] = True
     for o in outs:
         res.evaluations += len(o["peers"])
         res.extra.setdefault("events_observed", 0)
